@@ -194,6 +194,15 @@ type c23Replay struct {
 	Request c23Req           `json:"request"`
 }
 
+// add counts a violation and keeps the first three per key (detail and replay are built lazily).
+func (res *c23ItemResult) add(key string, mk func() (string, any)) {
+	res.ViolN[key]++
+	if res.ViolN[key] <= 3 {
+		d, r := mk()
+		res.Viols = append(res.Viols, c23Viol{Key: key, Detail: d, Replay: r})
+	}
+}
+
 var c23Requests []c23Req
 
 func c23Init() {
@@ -313,12 +322,7 @@ func c23RunItem(it c23Item) *c23ItemResult {
 		}
 		return entries, deny, allow
 	}
-	addViol := func(key, detail string, mk func() any) {
-		res.ViolN[key]++
-		if res.ViolN[key] <= 3 {
-			res.Viols = append(res.Viols, c23Viol{Key: key, Detail: detail, Replay: mk()})
-		}
-	}
+	addViol := res.add
 	idx := make([]int, k)
 	for {
 		// ---- decision oracle ----
@@ -343,21 +347,7 @@ func c23RunItem(it c23Item) *c23ItemResult {
 			res.Sample = map[string]any{"family": fam.Name, "default_policy": defStr, "principals": c23CloneEntries(es),
 				"decisions_hex(5 principals x 12 requests)": fmt.Sprintf("%015x", real), "matches_reference": real == exp}
 		}
-		if diff := real ^ exp; diff != 0 {
-			for d := diff; d != 0; d &= d - 1 {
-				i := bits.TrailingZeros64(d)
-				q := c23Requests[i]
-				cls := c23ReqClass[i/c23Triples]
-				t := uint(i % c23Triples)
-				got := real>>uint(i)&1 == 1
-				denyHit := deny[cls]>>t&1 == 1
-				allowHit := allow[cls]>>t&1 == 1
-				key := c23Classify(es, q, cls < 2 && clsCount[cls] > 1, denyHit, allowHit, got)
-				addViol(key, fmt.Sprintf("default_policy=%q principals=%+v request=%+v: Allows=%v, statement says %v", defStr, es, q, got, !got), func() any {
-					return c23Replay{Kind: "decision", Default: defStr, Entries: c23CloneEntries(es), Request: q}
-				})
-			}
-		}
+		c23ReportDecisions(addViol, es, defStr, real, exp, deny, allow, clsCount)
 		// ---- monotonicity: this configuration vs itself minus one rule ----
 		for s, sl := range slots {
 			bases := []int{-1}
@@ -382,20 +372,7 @@ func c23RunItem(it c23Item) *c23ItemResult {
 				}
 				basesnap := c23CloneEntries(bes)
 				ext, _, _ := build(idx, -1, -1)
-				extsnap := c23CloneEntries(ext)
-				for d := bad; d != 0; d &= d - 1 {
-					i := bits.TrailingZeros64(d)
-					q := c23Requests[i]
-					cls := c23ReqClass[i/c23Triples]
-					key := "nonmonotone-add-" + added
-					if cls < 2 && clsCount[cls] > 1 {
-						key = "dup-principal-" + key
-					}
-					addViol(key, fmt.Sprintf("default_policy=%q request=%+v: before=%+v after adding one %s rule=%+v: access %s", defStr, q, basesnap, added, extsnap,
-						map[bool]string{true: "granted", false: "removed"}[sl.deny]), func() any {
-						return c23Replay{Kind: "monotone", Default: defStr, Entries: extsnap, Base: basesnap, Added: added, Request: q}
-					})
-				}
+				c23ReportMono(addViol, basesnap, ext, defStr, added, bad, clsCount)
 			}
 		}
 		// next rule assignment
@@ -415,8 +392,69 @@ func c23RunItem(it c23Item) *c23ItemResult {
 	return res
 }
 
+// c23ReportDecisions reports every request whose real decision differs from the statement.
+func c23ReportDecisions(addViol func(key string, mk func() (string, any)), es []PrincipalRules, defStr string, real, exp uint64, deny, allow [3]uint16, clsCount [3]int) {
+	for d := real ^ exp; d != 0; d &= d - 1 {
+		i := bits.TrailingZeros64(d)
+		q := c23Requests[i]
+		cls := c23ReqClass[i/c23Triples]
+		t := uint(i % c23Triples)
+		got := real>>uint(i)&1 == 1
+		denyHit := deny[cls]>>t&1 == 1
+		allowHit := allow[cls]>>t&1 == 1
+		key := c23Classify(es, defStr, q, cls < 2 && clsCount[cls] > 1, denyHit, allowHit, got)
+		addViol(key, func() (string, any) {
+			snap := c23CloneEntries(es)
+			return fmt.Sprintf("default_policy=%q principals=%+v request=%+v: Allows=%v, statement says %v", defStr, snap, q, got, !got),
+				c23Replay{Kind: "decision", Default: defStr, Entries: snap, Request: q}
+		})
+	}
+}
+
+// c23ReportMono reports requests for which adding one rule moved access the wrong way.
+func c23ReportMono(addViol func(key string, mk func() (string, any)), base, ext []PrincipalRules, defStr, added string, bad uint64, clsCount [3]int) {
+	basesnap, extsnap := c23CloneEntries(base), c23CloneEntries(ext)
+	for d := bad; d != 0; d &= d - 1 {
+		i := bits.TrailingZeros64(d)
+		q := c23Requests[i]
+		cls := c23ReqClass[i/c23Triples]
+		key := "nonmonotone-add-" + added
+		if cls < 2 && clsCount[cls] > 1 {
+			// duplicate entries for the principal: is "the last entry replaces the earlier ones" what happened?
+			before, _ := c23RefDecide(Config{DefaultPolicy: defStr, Principals: c23LastEntryOnly(base, q.Principal)}, q)
+			after, _ := c23RefDecide(Config{DefaultPolicy: defStr, Principals: c23LastEntryOnly(ext, q.Principal)}, q)
+			if before == (added == "allow") && after == (added == "deny") {
+				key = "dup-principal-" + key
+			}
+		}
+		addViol(key, func() (string, any) {
+			return fmt.Sprintf("default_policy=%q request=%+v: before=%+v after adding one %s rule=%+v: access %s", defStr, q, basesnap, added, extsnap,
+					map[string]string{"deny": "granted", "allow": "removed"}[added]),
+				c23Replay{Kind: "monotone", Default: defStr, Entries: extsnap, Base: basesnap, Added: added, Request: q}
+		})
+	}
+}
+
+// c23LastEntryOnly keeps, of the entries naming the principal, only the last one.
+func c23LastEntryOnly(es []PrincipalRules, principal string) []PrincipalRules {
+	who := strings.TrimSpace(principal)
+	last := -1
+	for i, e := range es {
+		if strings.TrimSpace(e.Name) == who {
+			last = i
+		}
+	}
+	var out []PrincipalRules
+	for i, e := range es {
+		if strings.TrimSpace(e.Name) != who || i == last {
+			out = append(out, e)
+		}
+	}
+	return out
+}
+
 // c23Classify names the mechanism of a decision mismatch.
-func c23Classify(es []PrincipalRules, q c23Req, dup, denyHit, allowHit, got bool) string {
+func c23Classify(es []PrincipalRules, defStr string, q c23Req, dup, denyHit, allowHit, got bool) string {
 	firstKind := func(deny bool) string {
 		who := strings.TrimSpace(q.Principal)
 		for _, e := range es {
@@ -435,13 +473,16 @@ func c23Classify(es []PrincipalRules, q c23Req, dup, denyHit, allowHit, got bool
 		}
 		return "none"
 	}
+	if dup {
+		// duplicate entries for the principal: is "the last entry replaces the earlier ones" what happened?
+		if last, _ := c23RefDecide(Config{DefaultPolicy: defStr, Principals: c23LastEntryOnly(es, q.Principal)}, q); last == got {
+			if denyHit {
+				return "dup-principal-deny-lost"
+			}
+			return "dup-principal-allow-lost"
+		}
+	}
 	switch {
-	case dup && denyHit && got:
-		return "dup-principal-deny-lost"
-	case dup && !denyHit && allowHit && !got:
-		return "dup-principal-allow-lost"
-	case dup:
-		return "dup-principal-default-misapplied"
 	case denyHit && got && allowHit:
 		return "allow-evaluated-before-deny"
 	case denyHit && got:
@@ -489,7 +530,11 @@ func c23ReplayOne(rep *vh.Report, rp c23Replay) {
 		if (rp.Added == "allow" && before && !got) || (rp.Added == "deny" && !before && got) {
 			key := "nonmonotone-add-" + rp.Added
 			if dup {
-				key = "dup-principal-" + key
+				b, _ := c23RefDecide(Config{DefaultPolicy: rp.Default, Principals: c23LastEntryOnly(rp.Base, q.Principal)}, q)
+				a, _ := c23RefDecide(Config{DefaultPolicy: rp.Default, Principals: c23LastEntryOnly(rp.Entries, q.Principal)}, q)
+				if b == before && a == got {
+					key = "dup-principal-" + key
+				}
 			}
 			rep.Violation(key, fmt.Sprintf("replay: before=%v after=%v", before, got), rp)
 		}
@@ -507,7 +552,7 @@ func c23ReplayOne(rep *vh.Report, rp c23Replay) {
 					allowHit = allowHit || c23RefMatch(r, q)
 				}
 			}
-			rep.Violation(c23Classify(rp.Entries, q, dup, denyHit, allowHit, got), fmt.Sprintf("replay: Allows=%v, statement says %v (%s)", got, want, reason), rp)
+			rep.Violation(c23Classify(rp.Entries, rp.Default, q, dup, denyHit, allowHit, got), fmt.Sprintf("replay: Allows=%v, statement says %v (%s)", got, want, reason), rp)
 		}
 	}
 }
@@ -560,7 +605,7 @@ func TestVerifC23(t *testing.T) {
 	rep.SetInfo("F2", map[string]any{"rules": f2.Rules, "max_entries": 2, "max_rules_per_list": 2, "max_rules_total": f2.MaxTotal})
 
 	var items []c23Item
-	for _, fam := range []*c23Family{f1, f2} {
+	for _, fam := range []*c23Family{f1} {
 		for _, sh := range c23Shapes(fam.MaxTotal) {
 			for d := range c23Defaults {
 				items = append(items, c23Item{Fam: fam, Shape: sh, Default: d})
@@ -591,6 +636,14 @@ func TestVerifC23(t *testing.T) {
 	}
 	close(next)
 	wg.Wait()
+	if !capped {
+		dres, dcap := c23RunDense(f2, deadline)
+		capped = capped || dcap
+		for _, r := range dres {
+			results = append(results, r)
+			items = append(items, c23Item{Fam: f2})
+		}
+	}
 	if capped {
 		rep.Cap("deadline reached before all (family, shape, default) items were enumerated")
 	}
